@@ -1,12 +1,12 @@
 #!/bin/bash
-# tools/seed_verify.sh Cxx [outdir]: confirm a seeded breaking change independently and run our check against it.
+# tools/seed_verify.sh Cxx [outdir [name]]: confirm a seeded breaking change independently and run our check against it.
 #  - copies /tmp/seedout-Cxx/{patch.diff,demo.*,meta.json} to seeded/Cxx/
 #  - scratch tree /tmp/seedrepo (worktree of /repo with its own configured _build): demo passes on clean, fails on patched;
 #    existing suite (C++/MPI tests; python tests need /repo/_build's venv) still passes with the patch
 #  - bin/check Cxx --repo /tmp/seedrepo must print VIOLATION
 set -u
-P=$1; OUT=${2:-/tmp/seedout-$P}; V=$(cd "$(dirname "$0")/.." && pwd); S=/tmp/seedrepo
-D=$V/seeded/$P; mkdir -p $D; cp $OUT/patch.diff $OUT/meta.json $D/ 2>/dev/null; cp $OUT/demo.* $D/ 2>/dev/null
+P=$1; OUT=${2:-/tmp/seedout-$P}; NAME=${3:-$P}; V=$(cd "$(dirname "$0")/.." && pwd); S=/tmp/seedrepo
+D=$V/seeded/$NAME; mkdir -p $D; cp $OUT/patch.diff $OUT/meta.json $D/ 2>/dev/null; cp $OUT/demo.* $D/ 2>/dev/null
 LOG=$D/verify.log; : > $LOG
 export OMPI_ALLOW_RUN_AS_ROOT=1 OMPI_ALLOW_RUN_AS_ROOT_CONFIRM=1
 git -C $S checkout -q -- . ; git -C $S checkout -q --detach $(git -C /repo rev-parse HEAD) 2>>$LOG
